@@ -24,7 +24,7 @@ HDR = "From DR Require Import Model.CheckMulti.\nOpen Scope Z_scope.\n"
 
 def signature(case):
     t = case.get("impl_tree")
-    if t and t[0] == "ok" and case.get("phase") == "database" and 'near "(": syntax error' in case.get("error", "") \
+    if t and t[0] == "ok" and case.get("phase") == "database" and "syntax error" in case.get("error", "") \
             and sg.nested_compound_operand(t[1]):
         return "nested_compound_operand"
     return None
